@@ -284,6 +284,29 @@ let run_seg mo jo impl secs =
        end)
   | _ -> ()
 
+(* ---- FLT: floating-point KEY types are NOT modelled; the implementation's answers are judged on the
+   order-preserving integer images of keys and queries (the model column just echoes the implementation) ---- *)
+let run_flt mo jo impl secs =
+  match secs with
+  | ("FLT" :: id :: _name :: eps :: _) :: _ ->
+    pr mo "C %s\n" id;
+    (match Hashtbl.find_opt impl id with
+     | None -> ()
+     | Some lines ->
+       List.iter (fun toks -> pr mo "%s\n" (String.concat " " toks)) lines;
+       let data = List.concat_map (function "KI" :: t -> List.map zin t | _ -> []) lines in
+       let present = Hashtbl.create 64 in
+       List.iter (fun d -> Hashtbl.replace present (zout d) ()) data;
+       List.iter (fun toks -> match toks with
+         | ["QF"; q; pos; lo; hi] ->
+           let a = { a_pos = zin pos; a_lo = zin lo; a_hi = zin hi } in
+           let what = "float key image q=" ^ q ^ " pos=" ^ pos ^ " lo=" ^ lo ^ " hi=" ^ hi in
+           if Hashtbl.mem present q then judge jo "C01" id what (c01_pred_b (zin eps) data (zin q) a);
+           judge jo "C02" id what (c02_pred_b data (zin q) a)
+         | ["B"; "throw"; kind] -> judge jo "C01" id ("floating-key build threw " ^ kind) false
+         | _ -> ()) lines)
+  | _ -> ()
+
 (* ---- PLA: direct use of the builder with a signed rank type (rejections, C20) ---- *)
 let run_pla mo jo impl secs =
   match secs with
@@ -877,7 +900,7 @@ let () =
   List.iter (fun line ->
     let secs = sections line in
     match mode with
-    | "idx" -> run_idx mo jo impl secs; run_seg mo jo impl secs; run_pla mo jo impl secs
+    | "idx" -> run_idx mo jo impl secs; run_seg mo jo impl secs; run_pla mo jo impl secs; run_flt mo jo impl secs
     | "dyn" -> run_dyn mo jo impl secs
     | "var" -> run_bkt mo jo impl secs; run_efi mo jo impl secs
     | "map" -> run_map mo jo impl secs
@@ -886,7 +909,7 @@ let () =
     | "thr" -> run_thr mo jo impl secs
     | "own" -> run_own mo jo impl secs
     | "cmp" -> run_cmp mo jo impl secs
-    | "all" -> run_idx mo jo impl secs; run_seg mo jo impl secs; run_pla mo jo impl secs; run_dyn mo jo impl secs; run_bkt mo jo impl secs; run_efi mo jo impl secs;
+    | "all" -> run_idx mo jo impl secs; run_seg mo jo impl secs; run_pla mo jo impl secs; run_flt mo jo impl secs; run_dyn mo jo impl secs; run_bkt mo jo impl secs; run_efi mo jo impl secs;
       run_map mo jo impl secs; run_mul mo jo impl secs; run_cix mo jo impl secs; run_cdy mo jo impl secs; run_cmp mo jo impl secs
     | _ -> failwith "unknown mode") (read_lines cases);
   Hashtbl.iter (fun prop (n, f) -> pr jo "JSUM %s %d %d\n" prop n f) jcount;
